@@ -1426,6 +1426,24 @@ class CallMixin:
         else:
             raise EngineError("endswith arg")
 
+    def str_rpartition(self, st, recv, args, kw, node):
+        """s.rpartition(sep) -> (head, sep, tail): split at the last occurrence; ('', '', s) when sep does not occur."""
+        sep = self.as_value(args[0])
+        if not isinstance(sep.t, TStr):
+            raise EngineError("rpartition separator")
+        # (functions of the receiver, so that two evaluations of the same split are the same terms)
+        S_ = z3.StringSort()
+        head = mk_str(z3.Function("rp_head", S_, S_, S_)(recv.z, sep.z))
+        tail = mk_str(z3.Function("rp_tail", S_, S_, S_)(recv.z, sep.z))
+        has = z3.Contains(recv.z, sep.z)
+        E = z3.StringVal("")
+        st = st.assume(z3.And(
+            z3.Length(sep.z) > 0,
+            z3.Implies(has, z3.And(recv.z == z3.Concat(head.z, sep.z, tail.z), z3.Not(z3.Contains(tail.z, sep.z)))),
+            z3.Implies(z3.Not(has), z3.And(head.z == E, tail.z == recv.z))))
+        mid = mk_str(z3.If(has, sep.z, E))
+        yield st, mk_tuple([head, mid, tail]), None
+
     def str_removeprefix(self, st, recv, args, kw, node):
         a = self.as_value(args[0])
         n = z3.Length(a.z)
